@@ -38,6 +38,7 @@ type LStep struct {
 type LFact struct {
 	X, Y, Z int64
 	A, Bv   int64
+	S       string
 }
 
 // ruleText gives the GRL of rule `name` in text variant t. The variants of one name differ in condition,
@@ -69,6 +70,8 @@ var badLiteral = []string{
 	`rule Z salience 2147483648 { when F.X == 1 && F.Z == 0 then F.A = 5; }`,
 	`rule Z { when F.X == 1 && F.Z == 0 then F.A = 1e999; }`,
 	`rule Z salience -2147483649 { when F.Y == 2 && F.Z == 0 then F.A = 5; }`,
+	`rule Z { when F.S != "\q" && F.Z == 0 then F.A = 5; }`,
+	`rule Z { when F.X == 1 && F.Z == 0 then F.S = 'it\'s \x'; }`,
 }
 
 type probeResult struct {
@@ -85,7 +88,8 @@ func probe(kb *ast.KnowledgeBase) probeResult {
 	for i, f := range probes() {
 		dc := ast.NewDataContext()
 		dc.Add("F", f)
-		eng := &engine.GruleEngine{MaxCycle: 20}
+		// every rule of the vocabulary evaluates on the probes: a failing evaluation means a broken rule got in
+		eng := &engine.GruleEngine{MaxCycle: 20, ReturnErrOnFailedRuleEvaluation: true}
 		res, err := eng.FetchMatchingRules(dc, kb)
 		if err != nil {
 			pr.Err = "fetch: " + err.Error()
